@@ -129,6 +129,98 @@ package gocql
 //@   ensures !soft_panic() ==> len(f.traceID) == 16 && f.buf == old(f.buf[16:])
 
 // ---------------------------------------------------------------------------
+// frame.go: frame construction (CQL spec §2 "Frame header"), compression (§5)
+// framer invariant: headSize is 9 for protocol >= 3, else 8; the outgoing
+// compression flag is set iff a compressor is configured.
+// ---------------------------------------------------------------------------
+
+// Compressor implementations (snappy, lz4, user supplied): assumed not to touch driver state;
+// an encoded body is shorter than 1 GiB (the length field is a signed [int]).
+//@ func (recv Compressor) Encode
+//@   interface
+//@   trusted assumption about Compressor implementations
+//@   modifies nothing
+//@   ensures result1 == nil ==> len(result0) < 1<<30
+
+//@ func (recv Compressor) Decode
+//@   interface
+//@   trusted assumption about Compressor implementations
+//@   modifies nothing
+
+//@ func newFramer
+//@   props C03 C18
+//@   ensures result != nil && result.proto == version&0x7f && (version&0x7f > 2 ==> result.headSize == 9) && (version&0x7f <= 2 ==> result.headSize == 8)
+//@   ensures (result.flags&0x01 != 0) == (compressor != nil) && result.compres == compressor && len(result.buf) == 0 && result.header == nil
+
+//@ func (f *framer) writeHeader
+//@   props C03 C18
+//@   requires (f.proto > 2 ==> f.headSize == 9) && (f.proto <= 2 ==> f.headSize == 8)
+//@   modifies f.buf
+//@   ensures len(f.buf) == f.headSize && f.buf[0] == f.proto && f.buf[1] == flags
+//@   ensures f.proto > 2 ==> be16(f.buf, 2) == uint16(stream) && f.buf[4] == byte(op)
+//@   ensures f.proto <= 2 ==> f.buf[2] == byte(stream) && f.buf[3] == byte(op)
+
+//@ func (f *framer) setLength
+//@   props C03 C18
+//@   requires ((f.proto > 2 ==> f.headSize == 9) && (f.proto <= 2 ==> f.headSize == 8)) && len(f.buf) >= f.headSize
+//@   modifies f.buf[*]
+//@   ensures be32(f.buf, f.headSize-4) == uint32(length)
+//@   ensures forall(k, 0 <= k && k < len(f.buf) && (k < f.headSize-4 || k >= f.headSize), f.buf[k] == old(f.buf[k]))
+
+// finish: the body is compressed exactly when the flag byte written by writeHeader has
+// the compression bit; the length field equals the size of what follows the header.
+//@ func (f *framer) finish
+//@   props C03 C18
+//@   count_calls Encode
+//@   requires ((f.proto > 2 ==> f.headSize == 9) && (f.proto <= 2 ==> f.headSize == 8)) && len(f.buf) >= f.headSize
+//@   requires f.buf[1]&0x01 != 0 ==> f.compres != nil
+//@   assume ErrFrameTooBig != nil
+//@   modifies f.buf, f.buf[*]
+//@   ensures[C18] Encode_calls == ite(old(len(f.buf)) <= 256*1024*1024 && old(f.buf[1])&0x01 != 0, 1, 0)
+//@   ensures result == nil ==> len(f.buf) >= f.headSize && int(int32(be32(f.buf, f.headSize-4))) == len(f.buf) - f.headSize
+//@   ensures result == nil ==> all(k, 0, 4, f.buf[k] == old(f.buf[k]))
+//@   ensures result == nil && old(f.buf[1])&0x01 == 0 ==> len(f.buf) == old(len(f.buf)) && forall(k, f.headSize <= k && k < len(f.buf), f.buf[k] == old(f.buf[k]))
+
+// Writers with loops: the bytes already in the buffer (header included) are kept; the
+// primitives without loops (writeByte/Short/Int/Long/String/Bytes/...) are inlined by the
+// verifier, so their effect on the buffer is the code itself.
+//@ func (f *framer) writeStringList
+//@   props C03
+//@   modifies f.buf
+//@   ensures len(f.buf) >= old(len(f.buf)) + 2 && forall(k, 0 <= k && k < old(len(f.buf)), f.buf[k] == old(f.buf[k]))
+//@   ensures be16(f.buf, old(len(f.buf))) == uint16(len(l))
+//@   loop 0: invariant len(f.buf) >= old(len(f.buf)) + 2 && forall(k, 0 <= k && k < old(len(f.buf)), f.buf[k] == old(f.buf[k])) && be16(f.buf, old(len(f.buf))) == uint16(len(l))
+
+//@ func (f *framer) writeStringMap
+//@   props C03
+//@   modifies f.buf
+//@   ensures len(f.buf) >= old(len(f.buf)) + 2 && forall(k, 0 <= k && k < old(len(f.buf)), f.buf[k] == old(f.buf[k]))
+//@   ensures be16(f.buf, old(len(f.buf))) == uint16(len(m))
+//@   loop 0: invariant len(f.buf) >= old(len(f.buf)) + 2 && forall(k, 0 <= k && k < old(len(f.buf)), f.buf[k] == old(f.buf[k])) && be16(f.buf, old(len(f.buf))) == uint16(len(m))
+
+//@ func (f *framer) writeBytesMap
+//@   props C03
+//@   modifies f.buf
+//@   ensures len(f.buf) >= old(len(f.buf)) + 2 && forall(k, 0 <= k && k < old(len(f.buf)), f.buf[k] == old(f.buf[k]))
+//@   ensures be16(f.buf, old(len(f.buf))) == uint16(len(m))
+//@   loop 0: invariant len(f.buf) >= old(len(f.buf)) + 2 && forall(k, 0 <= k && k < old(len(f.buf)), f.buf[k] == old(f.buf[k])) && be16(f.buf, old(len(f.buf))) == uint16(len(m))
+
+// STARTUP and OPTIONS are never compressed (spec §5): their header is written with the compression bit cleared.
+//@ func (w *writeStartupFrame) buildFrame
+//@   props C03 C18
+//@   count_calls Encode
+//@   requires f != nil && ((f.proto > 2 ==> f.headSize == 9) && (f.proto <= 2 ==> f.headSize == 8))
+//@   ensures result == nil ==> f.buf[1]&0x01 == 0 && len(f.buf) >= f.headSize
+//@   ensures[C18] Encode_calls == 0
+
+//@ func (f *framer) writeOptionsFrame
+//@   props C03 C18
+//@   count_calls Encode
+//@   ensures[C18] Encode_calls == 0
+//@   requires ((f.proto > 2 ==> f.headSize == 9) && (f.proto <= 2 ==> f.headSize == 8))
+//@   ensures result == nil ==> f.buf[1]&0x01 == 0 && len(f.buf) == f.headSize
+
+// ---------------------------------------------------------------------------
 // frame.go: header and message parsers. Inputs are arbitrary bytes; every
 // run-time panic site is an obligation (C05); protocol errors are soft panics
 // (panic(error)) caught by parseFrame's recover.
@@ -568,6 +660,31 @@ package gocql
 //@   props C05 C16
 //@   requires framer != nil && framer.header != nil && s.logger != nil && s.schemaEvents != nil && s.nodeEvents != nil
 //@   requires s.schemaEvents.logger != nil && s.nodeEvents.logger != nil
+
+// ---------------------------------------------------------------------------
+// session.go: routing key (C09). Single-column key: exactly the encoded value.
+// Composite key (Cassandra CompositeType): per component, in partition-key order:
+// 2-byte big-endian length, the encoded bytes, one zero byte.
+// ---------------------------------------------------------------------------
+
+// Marshal as seen by its callers here: it may call user code (MarshalCQL) which cannot reach
+// the caller's local objects; the encoding itself is specified under C02/C12.
+//@ func Marshal
+//@   props C09
+//@   trusted frame condition only: Marshal does not modify memory reachable by its caller
+//@   modifies nothing
+
+//@ func createRoutingKey
+//@   props C09
+//@   count_calls Marshal
+//@   requires routingKeyInfo != nil ==> len(routingKeyInfo.types) == len(routingKeyInfo.indexes)
+//@   requires routingKeyInfo != nil ==> forall(k, 0 <= k && k < len(routingKeyInfo.indexes), 0 <= routingKeyInfo.indexes[k] && routingKeyInfo.indexes[k] < len(values))
+//@   ensures routingKeyInfo != nil && len(routingKeyInfo.indexes) == 1 && result1 == nil ==> Marshal_calls == 1 && result0 == Marshal_ret0
+//@   loop 0: invariant buf != nil
+//@   loop 0: step len(buf.buf) == prev(len(buf.buf)) + 3 + len(encoded) && buf.buf[len(buf.buf)-1] == 0
+//@   loop 0: step len(encoded) <= 65535 ==> be16(buf.buf, prev(len(buf.buf))) == uint16(len(encoded))
+//@   loop 0: step forall(k, 0 <= k && k < len(encoded), buf.buf[prev(len(buf.buf))+2+k] == encoded[k])
+//@   loop 0: step forall(k, 0 <= k && k < prev(len(buf.buf)), buf.buf[k] == prev(buf.buf[k]))
 
 // ---------------------------------------------------------------------------
 // uuid.go (RFC 4122; oracle in /verif/spec/bv.smt2 blocks uuid, hex)
